@@ -713,6 +713,37 @@ def a_tensordot(a, b, axes=2):
     return Array.from_fn(ra + rb, fn)
 
 
+def a_tensordot_axes(a, b, axa, axb):
+    """numpy.tensordot with explicit axis lists."""
+    axa = [x % a.rank for x in axa]
+    axb = [x % b.rank for x in axb]
+    if len(axa) != len(axb):
+        raise ValueError("tensordot axes")
+    ra = [k for k in range(a.rank) if k not in axa]
+    rb = [k for k in range(b.rank) if k not in axb]
+
+    def fn(*idx):
+        ks = [fresh("i") for _ in axa]
+        ia = [None] * a.rank
+        ib = [None] * b.rank
+        for k, p in zip(ks, axa):
+            ia[p] = k
+        for k, p in zip(ks, axb):
+            ib[p] = k
+        it = iter(idx)
+        for p in ra:
+            ia[p] = next(it)
+        for p in rb:
+            ib[p] = next(it)
+        e = a.at(*ia) * b.at(*ib)
+        for k in ks:
+            e = e.sum_over(k)
+        return e
+    if not ra and not rb:
+        return fn()
+    return Array.from_fn(len(ra) + len(rb), fn)
+
+
 def a_trace(a):
     k = fresh("i")
     return a.at(k, k).sum_over(k)
